@@ -208,6 +208,11 @@ def main(argv=None):
             print(f"  {v.get('observed', '')}")
             seen_keys.add(v["key"])
         rc = 1
+    if rc == 1 and (inconclusive or errors) and a.verbose:
+        for i in inconclusive[:8]:
+            print(f"  (also inconclusive) item={i['item']} label={i['label']}: {str(i.get('detail'))[:300]}")
+        for it, e in errors[:3]:
+            print(f"  (also harness error) item={it}: {e[-400:]}")
     if rc == 0:
         if errors:
             for it, e in errors[:5]:
